@@ -17,10 +17,7 @@ NOT_APPLICABLE = {
  "C32": "Assembler layout fixpoint over encodings produced by the table-driven assembler (C15); existence of a layout is a search property.",
  "C34": "core/types.py builds types with metaclasses and struct; reads/writes go through the VmMngr C extension. Outside the verifier's Python subset.",
  "C35": "Oracle is GCC's x86-64 ABI layout (differential against a compiler); objc.py/ctypesmngr.py sit on pycparser ASTs and dynamic class generation.",
- "C36": "Behavioural equivalence of whole-IR-graph transformations for all programs needs a verified IR semantics and a simulation proof per pass (~2.3k lines of data-flow code); beyond a home-made verifier.",
- "C37": "SSA construction / out-of-SSA: path- and graph-inductive; only structural post-checks would be possible and they do not carry the behavioural clause.",
  "C39": "Dependency-graph slicing over arbitrary loop-free IR graphs with path constraints; whole-program analysis relying on the z3 translator and symbolic execution of lifted code.",
- "C40": "Constant propagation preserving behaviour for all programs: abstract-interpretation fixpoint + rewriting; needs a simulation proof as C36.",
  "C41": "Dynamic symbolic execution of x86 programs under a jitter with a solver in the loop; whole-system across Python, C and z3.",
  "C42": "Build/parse round trip goes through the cstruct metaclass serialisers, struct and ~1.7k lines of directory classes -- outside the verifier's subset; the contractible address-conversion slice does not carry the round-trip statement.",
  "C43": "ELF parse/build identity over cstruct-metaclass serialisers and toolchain-produced files; outside the verifier's subset.",
